@@ -61,6 +61,14 @@ func (pConn *PFCPConn) HandlePFCPMsg(buf []byte) {
 		err   error
 	)
 
+	// A malformed IE can make the decoding library panic (e.g. truncated PFD
+	// Contents); one bad datagram must not take the agent down.
+	defer func() {
+		if r := recover(); r != nil {
+			logger.PfcpLog.Errorf("dropping PFCP message, recovered from panic while handling it: %v", r)
+		}
+	}()
+
 	msg, err := message.Parse(buf)
 	if err != nil {
 		logger.PfcpLog.Errorf("ignoring undecodable message: %v, error: %v", buf, err)
